@@ -3,9 +3,11 @@ package as
 import (
 	"bufio"
 	"encoding/json"
+	"fmt"
 	"math/rand"
 	"net/http"
 	"os"
+	"strings"
 	"sync"
 	"time"
 
@@ -62,6 +64,77 @@ func (s *Site) runPair(n int, r *rand.Rand) []Line {
 	return lines
 }
 
+// runLoginPair completes TWO logins at the same time: two browsers, each with its own genuine flow (state and
+// CSRF cookie from a real /start), each returning from the identity provider with its own code, for two
+// different users; the provider answers slowly so that the two code exchanges overlap. Each callback is recorded
+// as an ordinary one-step callback cell (emailSame = the session's e-mail is the one the provider returned for
+// THIS code) and judged by the same rules.
+func (s *Site) runLoginPair(n int, r *rand.Rand) ([]Line, error) {
+	var fl [2]*flow
+	for i := range fl {
+		so, f, pm := s.start(r)
+		if f == nil || !so.ToIdP || !so.CsrfSet || f.Redirect == "" {
+			return nil, fmt.Errorf("login pair %d: /start did not start a flow (status %d, %s)", n, so.Status, pm)
+		}
+		fl[i] = f
+	}
+	cls := [2]string{"allowed", "allowed"}
+	if r.Intn(2) == 0 {
+		cls[1] = "denied" // the provider vouches for the second user too, the authenticator's e-mail rule does not admit her
+	}
+	emails := [2]string{emailOf(s.Cfg.Pol, cls[0], r), ""}
+	for k := 0; k < 50 && (emails[1] == "" || emails[1] == "*" || strings.EqualFold(emails[1], emails[0])); k++ {
+		emails[1] = emailOf(s.Cfg.Pol, cls[1], r)
+	}
+	if emails[1] == "" || emails[1] == "*" || strings.EqualFold(emails[1], emails[0]) {
+		emails[1] = "second.user@notallowed.test"
+		cls[1] = "denied"
+	}
+	s.IdP.Script(map[string]world.IdpAnswer{}) // the provider answers from its token table (by code / by bearer)
+	codes := [2]string{fmt.Sprintf("pair-%d-a-%d", n, r.Int63()), fmt.Sprintf("pair-%d-b-%d", n, r.Int63())}
+	for i := range codes {
+		s.IdP.Grant(codes[i], emails[i], true, []string{"eng"})
+	}
+	s.IdP.SetDelay(time.Duration(2+r.Intn(5)) * time.Millisecond)
+	defer s.IdP.SetDelay(0)
+	type res struct {
+		o    COut
+		conc *Concrete
+		x    cbX
+	}
+	var out [2]res
+	var st, cs [2]string
+	for i := range fl {
+		st[i], cs[i], _, _ = s.forgeCallback("equal", "indomain", fl[i], r)
+	}
+	rs := [2]*rand.Rand{rand.New(rand.NewSource(r.Int63())), rand.New(rand.NewSource(r.Int63()))}
+	gap := time.Duration(r.Intn(3000)) * time.Microsecond
+	var wg sync.WaitGroup
+	order := r.Intn(2)
+	for k := 0; k < 2; k++ {
+		i := (k + order) % 2
+		wg.Add(1)
+		go func(i int) {
+			defer wg.Done()
+			o, conc, x := s.callbackWith(codes[i], st[i], cs[i], true, emails[i], nil, rs[i])
+			out[i] = res{o, conc, x}
+		}(i)
+		if k == 0 {
+			time.Sleep(gap)
+		}
+	}
+	wg.Wait()
+	tok, ui := goodAnswer(s.Cfg.Prov)
+	var lines []Line
+	for i := 0; i < 2; i++ {
+		cfg, t, u := s.Cfg, tok, ui
+		out[i].conc.Note = "concurrent logins: two browsers, two codes, two users (the other one: " + emails[1-i] + ")"
+		lines = append(lines, Line{Ev: "callback", Case: n + i, Cfg: &cfg, Rel: "equal", Redir: "indomain", Em: cls[i], Tok: &t, UI: &u,
+			Out: out[i].o, Conc: out[i].conc, Panic: out[i].x.Err})
+	}
+	return lines, nil
+}
+
 // RunPairs runs n concurrent pairs, spread over the sites.
 func RunPairs(out string, seed int64, n, workers int) (*Summary, error) {
 	if n == 0 {
@@ -86,7 +159,16 @@ func RunPairs(out string, seed int64, n, workers int) (*Summary, error) {
 			}
 			for j := wk; j < n; j += workers {
 				r := rand.New(rand.NewSource(seed*7907 + int64(j)))
-				all[j] = sites[j%len(sites)].runPair(30000000+2*j, r)
+				if j%2 == 0 {
+					all[j] = sites[(j/2)%len(sites)].runPair(30000000+2*j, r)
+				} else {
+					ls, err := sites[(j/2)%len(sites)].runLoginPair(30000000+2*j, r)
+					if err != nil {
+						errs <- err
+						return
+					}
+					all[j] = ls
+				}
 			}
 		}(wk)
 	}
